@@ -1241,6 +1241,11 @@ namespace bloch::compiler {
                 }
                 seen.insert(cur->base);
                 cur = findClass(cur->base);
+                // construction, destruction and validation recurse once per level
+                if (seen.size() > 256) {
+                    throw BlochError(ErrorCategory::Semantic, info.line, info.column,
+                                     "class '" + name + "' is more than 256 levels below its root");
+                }
             }
         }
 
